@@ -259,6 +259,15 @@ class Item(object):
         return float(lib().vp_item_score(self.p))
 
 
+def addr(x):
+    """`<size_t>p` : the address a pointer holds (0 for NULL)"""
+    import ctypes
+    if x is None:
+        return 0
+    p = x.p if isinstance(x, Item) else x
+    return ctypes.cast(p, ctypes.c_void_p).value or 0
+
+
 class _UIntPtr(object):
     def __init__(self, p):
         self.p = p
